@@ -77,6 +77,10 @@ Sensitivity (first 12000 indices of the quick tier, mutants applied to a scratch
   M24  run_forever: CancelledError not caught (no clean-up, no _error)             c
   M30  run(): the last collected error wins                                        c
   M35  SBlock.event: EdzedUnknownEvent treated like any handler error              c
+  s2   (seeded C09-s2) abort() does not cancel the simulation task when called     c
+       by it + pending-cancellation drain removed: needs abort() executed by the
+       simulation task with nothing raised (kinds ctrl_abort_sim, ofunc_abort_sim,
+       handler_caught_sim); clause not-terminated / not-terminated-by-itself
   MB   run(): raw simtask.cancel() instead of abort(CancelledError) when a         c
        supporting task exits (needs: error first, supporting task exits during clean-up)
   MC   abort(): cancels the simulation task again although an error is set         c
@@ -102,14 +106,17 @@ RULE = ("one run = fixed probe circuit x entry point (run_forever task + shutdow
         "edzed.run(*supporting coroutines) / edzed.run()) x 1-3 fatal sources (handler error "
         "direct / caught by the calling block / through a relaying block / inside the simulator "
         "task / inside an init routine, failing OutputFunc / OutputAsync with "
-        "on_error=Event.abort(), init routine failing in an early initialisation forced by an "
+        "on_error=Event.abort(), abort() executed by the simulator task itself with nothing "
+        "raised ('_ctrl' abort event on a CBlock's on_output, OutputFunc with "
+        "on_error=Event.abort() fed by a CBlock, handler error caught by a sender running in "
+        "the simulator task), init routine failing in an early initialisation forced by an "
         "external event, calc_output error, abort() followed by a raise, failing main task (raise / "
         "return), failing ValuePoll.func, abort(exc), '_ctrl' abort event, '_ctrl' shutdown "
         "event, shutdown(), raw cancel of the simulation task / of run(), failing or returning "
         "supporting task, SIGTERM, failing init_regular/init_from_value) at planned instants "
         "(same instant with equal / different call_soon hops, +1 ms, during async init, during "
         "clean-up, at the end of clean-up, before start, before the first step) x non-fatal "
-        "sources x loop knobs (tie order, latency, cost, hash salt); run indices below 3896 walk "
+        "sources x loop knobs (tie order, latency, cost, hash salt); the first N_SYS (about 4700) run indices walk "
         "entry x (single kind x phase, unordered pair of kinds x 7 timing patterns, for run(): "
         "fatal kind x shutdown() in a supporting coroutine x exiting supporting coroutine x 3 "
         "patterns) systematically, the rest is sampled incl. triples; non-trivial = at least one planned "
@@ -125,7 +132,8 @@ REACH_EXPECTED = ['two_deliveries_same_instant', 'tie_order_reversed', 'later_er
                   'raw_cancel_raced', 'request_overtaken', 'shutdown_reraised',
                   'shutdown_returned', 'shutdown_during_cleanup', 'run_returned_none',
                   'three_sources_fired', 'error_in_cleanup_ignored',
-                  'shutdown_awaiter_cancelled', 'init_error_in_early_init']
+                  'shutdown_awaiter_cancelled', 'init_error_in_early_init',
+                  'abort_inside_simtask_nothing_raised']
 ASSUMPTIONS = [
     "delivery order = order of the records written at the fault sites and by the pass-through "
     "wrapper of Circuit.abort for cancellations that edzed itself delivers (shutdown(), SIGTERM, "
@@ -149,7 +157,10 @@ POLLS = [0.0, 0.1, 0.3, 0.6, 1.0, 1.9, 2.0, 2.1, 2.3, 2.6, 3.2, 4.0, 5.9]
 
 COMMON = ['handler', 'handler_caught', 'handler_relay', 'handler_cblock', 'calc', 'calc_abort',
           'task_raise', 'task_return', 'vpoll', 'abort', 'ctrl_abort', 'ctrl_shutdown',
-          'shutdown', 'init', 'handler_init', 'init_early', 'ofunc_abort', 'oasync_abort']
+          'shutdown', 'init', 'handler_init', 'init_early', 'ofunc_abort', 'oasync_abort',
+          # abort() executed BY the simulation task without any exception reaching it:
+          'ctrl_abort_sim', 'ofunc_abort_sim', 'handler_caught_sim']
+SIM_CODES = {'ctrl_abort_sim': 'XA', 'ofunc_abort_sim': 'OS', 'handler_caught_sim': 'HS'}
 KINDS = {'rf': COMMON + ['cancel'],
          'run': COMMON + ['sup_raise', 'sup_return', 'sup_shutdown', 'sigterm', 'cancel_run'],
          'run0': COMMON + ['sigterm', 'cancel_run']}
@@ -157,7 +168,8 @@ PATTERNS = ['tie', 'hop_ab', 'hop_ba', 'b_1ms', 'b_cleanup', 'b_cleanup_end', 'i
 PHASES = ['running', 'init', 'first']
 NONFATAL = ['unknown', 'missing', 'extra']
 WRAPPED = ('handler', 'handler_caught', 'handler_relay', 'handler_cblock', 'handler_stop',
-           'handler_init', 'ctrl_abort', 'ofunc_abort', 'oasync_abort')
+           'handler_init', 'ctrl_abort', 'ofunc_abort', 'oasync_abort',
+           'ctrl_abort_sim', 'ofunc_abort_sim', 'handler_caught_sim')
 SUP_KINDS = ('sup_raise', 'sup_return', 'sup_shutdown')
 _NR = len(KINDS['run'])
 N_SYS = 2 * (_NR * len(PHASES) + _NR * (_NR - 1) // 2 * len(PATTERNS) + len(COMMON) * 2 * 3)
@@ -383,6 +395,23 @@ class Relay(edzed.SBlock):
                 raise
             self.x_ctx.run.fired('reach:handler_error_caught_by_caller')
         return 'relayed'
+
+
+class RelaySim(edzed.SBlock):
+    """
+    Fed by the FuncBlock's on_output, i.e. running in the simulation task: forwards a failing
+    event to the handler probe and catches the error, nothing is raised to the simulator.
+    """
+
+    def init_regular(self):
+        self.set_output(0)
+
+    def _event_cput(self, *, value, **_data):
+        if isinstance(value, (list, tuple)) and value and value[0] == 'HS':
+            try:
+                self.x_ev.send(self, tag=value[1], kind='handler_caught_sim')
+            except Injected:
+                self.x_ctx.run.fired('reach:handler_error_caught_by_caller')
 
 
 class Trig(edzed.SBlock):
@@ -638,11 +667,35 @@ def build(ctx, plan, storage):
         return x
 
     try:
+        kinds_present = {s['kind'] for s in plan['sources']}
         blocks['inp'] = PIn('inp')
-        blocks['fb'] = edzed.FuncBlock(
-            'fb', func=calc, on_output=edzed.Event('hp', 'cput')).connect('inp')
+        fb_events = [edzed.Event('hp', 'cput')]
+        if 'ctrl_abort_sim' in kinds_present:
+            def ctrl_filter(data):
+                # passes only the poisoned value; the site record is written right before
+                # the event reaches the control block
+                value = data.get('value')
+                if isinstance(value, (list, tuple)) and value and value[0] == 'XA':
+                    data['error'] = ctx.fatal_rec('ctrl_abort_sim', value[1])
+                    return data
+                return False
+            fb_events.append(edzed.Event('_ctrl', 'abort', efilter=ctrl_filter))
+        if 'ofunc_abort_sim' in kinds_present:
+            fb_events.append(edzed.Event('ofs', 'put'))
+        if 'handler_caught_sim' in kinds_present:
+            fb_events.append(edzed.Event('rx', 'cput'))
+        blocks['fb'] = edzed.FuncBlock('fb', func=calc, on_output=fb_events).connect('inp')
+        if 'ofunc_abort_sim' in kinds_present:
+            def ofunc_sim(value):
+                if isinstance(value, (list, tuple)) and value and value[0] == 'OS':
+                    ctx.fatal_site('ofunc_abort_sim', value[1])
+                return value
+            blocks['ofs'] = edzed.OutputFunc('ofs', func=ofunc_sim,
+                                             on_error=edzed.Event.abort())
         blocks['hp'] = HProbe('hp', x_ctx=ctx)
         blocks['relay'] = Relay('relay', x_ctx=ctx, x_ev=edzed.Event('hp', 'fail'))
+        if 'handler_caught_sim' in kinds_present:
+            blocks['rx'] = RelaySim('rx', x_ctx=ctx, x_ev=edzed.Event('hp', 'fail'))
         if any(s['kind'] in ('ctrl_abort', 'ctrl_shutdown') for s in plan['sources']):
             # (only then: the automatic '_ctrl' block changes what a start with an error
             # already set runs into)
@@ -846,8 +899,8 @@ def execute(plan, trace=False):
                     res = ext('relay', 'relay', tag=tag, kind=kind,
                               catch=(kind == 'handler_caught'))
                 run.log('op-result', kind, res[0], ctx.classify(res[1]) if res[0] == 'exc' else None)
-            elif kind in ('calc', 'calc_abort', 'handler_cblock'):
-                code = {'calc': 'C', 'calc_abort': 'CA', 'handler_cblock': 'H'}[kind]
+            elif kind in ('calc', 'calc_abort', 'handler_cblock') or kind in SIM_CODES:
+                code = {'calc': 'C', 'calc_abort': 'CA', 'handler_cblock': 'H', **SIM_CODES}[kind]
                 res = ext('inp', 'put', value=[code, tag])
                 run.log('op-result', kind, res[0])
             elif kind in ('task_raise', 'task_return'):
@@ -1242,6 +1295,22 @@ def judge(run, ctx, plan, info):
                          f"(acceptable: {[kind_of_spec(s) for s in accept]}), but {ob[0]} gave "
                          f"{got} ({ob[2]!r}); recorded order {order}")
 
+    # ---- a delivered error / cancellation ends the simulation by itself, in bounded time
+    late = next((e for e in D if e['k'] == 'req' and e.get('label') == 'late'), None)
+    if late is not None:
+        # (the harness's late shutdown() is only issued while the entry point is running)
+        pending = next((e for e in deliv if e['k'] in ('fatal', 'cancel') and e['i'] < late['i']
+                        and e['ns'] + 3_000_000_000 <= late['ns']), None)
+        if pending is not None:
+            what = pending.get('kind') or 'cancel'
+            run.violate(f"C09/not-terminated-by-itself/{what}",
+                        f"entry {entry}: {pending['k']} {what} was delivered at "
+                        f"{pending['ns'] / 1e9:.3f}s (Circuit.error then "
+                        f"{ctx.classify(D[pending['i'] + 1]['err'])}), but the entry point was "
+                        f"still running {(late['ns'] - pending['ns']) / 1e9:.3f}s later (the "
+                        "longest clean-up here takes about 1 s); it ended only when the "
+                        "harness intervened")
+
     # ---- Circuit.error never changes once set
     seen = [e for e in D if e['err'] is not None]
     for a, b in zip(seen, seen[1:]):
@@ -1357,6 +1426,8 @@ def judge(run, ctx, plan, info):
                 run.fired('reach:shutdown_during_cleanup')
     if any(e['k'] == 'early' for e in D):
         run.fired('reach:init_error_in_early_init')
+    if any(e['k'] == 'fatal' and e['kind'] in SIM_CODES for e in D):
+        run.fired('reach:abort_inside_simtask_nothing_raised')
     if any(e['k'] == 'fatal' and e['kind'] == 'handler_cblock' for e in D):
         run.fired('reach:handler_error_in_simtask')
     if any(sh['res'] == 'exc' for sh in ctx.shut):
